@@ -29,6 +29,22 @@ impl VisitMut for DerefReplacer {
         syn::visit_mut::visit_expr_mut(self, e);
     }
 }
+/// replaces every use of the plain identifier `ident` (as an expression) by `rep`
+struct PathReplacer {
+    ident: String,
+    rep: syn::Expr,
+}
+impl VisitMut for PathReplacer {
+    fn visit_expr_mut(&mut self, e: &mut syn::Expr) {
+        if let syn::Expr::Path(p) = e {
+            if p.qself.is_none() && p.path.is_ident(&self.ident) {
+                *e = self.rep.clone();
+                return;
+            }
+        }
+        syn::visit_mut::visit_expr_mut(self, e);
+    }
+}
 struct AssignReplacer {
     ident: String,
     recv: syn::Expr,
@@ -212,6 +228,16 @@ impl<'a> VisitMut for Rules<'a> {
             // R13t: IndexMap<String, V> -> SMap<V> (trusted stub with a ghost view)
             if let syn::Type::Path(p) = t {
                 if let Some(last) = p.path.segments.last() {
+                    if last.ident == "IndexSet" {
+                        if let syn::PathArguments::AngleBracketed(ab) = &last.arguments {
+                            let args: Vec<&syn::GenericArgument> = ab.args.iter().collect();
+                            if args.len() == 1 && norm(&args[0].to_token_stream().to_string()) == "String" {
+                                *t = syn::parse_quote!(SSet);
+                                self.ctx.used("R13");
+                                return;
+                            }
+                        }
+                    }
                     if last.ident == "IndexMap" {
                         if let syn::PathArguments::AngleBracketed(ab) = &last.arguments {
                             let args: Vec<&syn::GenericArgument> = ab.args.iter().collect();
@@ -638,6 +664,37 @@ impl<'a> VisitMut for Rules<'a> {
                     return;
                 }
             }
+            if self.ctx.on("R31") {
+                // R31: `for x in &mut V { B }` over a Vec place -> index loop; `x` becomes the place `V[i]`.  The index is advanced
+                // at the top of the body so that `continue` keeps its meaning.
+                if let (syn::Expr::Reference(r), syn::Pat::Ident(xid)) = (&*fl.expr, &*fl.pat) {
+                    if r.mutability.is_some() {
+                        let recv = (*r.expr).clone();
+                        let k = self.ctx.fresh();
+                        let nn = syn::Ident::new(&format!("vx_n{}", k), proc_macro2::Span::call_site());
+                        let ii = syn::Ident::new(&format!("vx_i{}", k), proc_macro2::Span::call_site());
+                        let cc = syn::Ident::new(&format!("vx_c{}", k), proc_macro2::Span::call_site());
+                        let mut body = fl.body.clone();
+                        let mut pr = PathReplacer { ident: xid.ident.to_string(), rep: syn::parse_quote!(#recv[#cc]) };
+                        pr.visit_block_mut(&mut body);
+                        let stmts = &body.stmts;
+                        let label = fl.label.clone();
+                        let new: syn::Expr = syn::parse_quote!({
+                            let #nn = #recv.len();
+                            let mut #ii = 0usize;
+                            #label while #ii < #nn {
+                                let #cc = #ii;
+                                #ii = #ii + 1;
+                                #(#stmts)*
+                            }
+                        });
+                        *e = new;
+                        self.ctx.used("R31");
+                        syn::visit_mut::visit_expr_mut(self, e);
+                        return;
+                    }
+                }
+            }
             if self.ctx.on("R4") {
                 // for (i, x) in E.iter().enumerate() { B }
                 if let syn::Expr::MethodCall(en) = &*fl.expr {
@@ -756,6 +813,22 @@ impl<'a> VisitMut for Rules<'a> {
         syn::visit_mut::visit_expr_mut(self, e);
         // R21 (abstraction): `<place>.<counter> += 1` for the auxiliary-name counters listed in opts.counter_fields
         // -> `<place>.<counter> = vx_counter_next(<place>.<counter>)` (no postcondition: 2^32 auxiliaries are assumed not to be reached)
+        // R32 (abstraction): `<local> += 1` for the local counters listed in opts.local_counters -> `<local> = vx_usize_next(<local>)`
+        // (no postcondition: the machine overflow of such a counter is NOT checked)
+        if self.ctx.on("R32") {
+            if let syn::Expr::Binary(b) = e {
+                if matches!(b.op, syn::BinOp::AddAssign(_)) {
+                    if let syn::Expr::Path(p) = &*b.left {
+                        let listed = self.ctx.opts["local_counters"].as_array().map(|a| a.iter().any(|v| v.as_str().map(|t| p.path.is_ident(t)).unwrap_or(false))).unwrap_or(false);
+                        if listed && norm(&b.right.to_token_stream().to_string()) == "1" {
+                            let l = (*b.left).clone();
+                            *e = syn::parse_quote!(#l = vx_usize_next(#l));
+                            self.ctx.used("R32");
+                        }
+                    }
+                }
+            }
+        }
         if self.ctx.on("R21") {
             if let syn::Expr::Binary(b) = e {
                 if matches!(b.op, syn::BinOp::AddAssign(_)) {
@@ -858,8 +931,19 @@ impl<'a> VisitMut for Rules<'a> {
                 self.ctx.used("R6");
             }
             syn::Expr::Macro(m) if self.ctx.on("R6") && m.mac.path.is_ident("format") => {
-                // R6: the text of a formatted string is abstracted away (no postcondition)
-                *e = syn::parse_quote!(vx_opaque_string());
+                // R6: the text of a formatted string is abstracted away (no postcondition), except that a template with at
+                // least one literal character outside its placeholders yields a NON-EMPTY string
+                let mut nonempty = false;
+                if let Some(proc_macro2::TokenTree::Literal(l)) = m.mac.tokens.clone().into_iter().next() {
+                    if let Ok(syn::Lit::Str(ls)) = syn::parse_str::<syn::Lit>(&l.to_string()) {
+                        let t = ls.value().replace("{{", "\u{1}").replace("}}", "\u{1}");
+                        let mut depth = 0;
+                        for ch in t.chars() {
+                            match ch { '{' => depth += 1, '}' => depth -= 1, _ if depth == 0 => nonempty = true, _ => {} }
+                        }
+                    }
+                }
+                *e = if nonempty { syn::parse_quote!(vx_opaque_nonempty_string()) } else { syn::parse_quote!(vx_opaque_string()) };
                 self.ctx.used("R6");
             }
             syn::Expr::Path(p) => {
@@ -878,6 +962,11 @@ impl<'a> VisitMut for Rules<'a> {
                         self.ctx.used("R10");
                         return;
                     }
+                }
+                if self.ctx.on("R13") && s == "IndexSet::new" {
+                    *e = syn::parse_quote!(SSet::new);
+                    self.ctx.used("R13");
+                    return;
                 }
                 if self.ctx.on("R13") && s == "IndexMap::new" {
                     *e = syn::parse_quote!(SMap::new);
